@@ -240,13 +240,17 @@ func indepWalk(disk map[string][]byte, node []byte, path []byte, depth int) ([]b
 }
 
 // indepCheck compares a sample of expected slots/nonces/code with the independent reader.
-func (w *world) indepCheck(disk map[string][]byte, root common.Hash, exp map[common.Address]*acctExp, max int) string {
+func (w *world) indepCheck(disk map[string][]byte, root common.Hash, exp map[common.Address]*acctExp, max int, offset int) string {
 	as := make([]common.Address, 0, len(exp))
 	for a := range exp {
 		as = append(as, a)
 	}
 	sort.Slice(as, func(i, j int) bool { return bytes.Compare(as[i][:], as[j][:]) < 0 })
 	n := 0
+	if len(as) > 0 {
+		k := offset % len(as)
+		as = append(append([]common.Address{}, as[k:]...), as[:k]...)
+	}
 	for _, a := range as {
 		if n >= max {
 			break
